@@ -125,6 +125,24 @@ def setup_run_args(W, cfg, K):
     return a
 
 
+def record_written_states(W, S):
+    """fields of the sampler after each completed write / shell update"""
+    states = []
+    ow, ou = S.write, S.write_shell_update
+
+    def write(*a, **k):
+        r = ow(*a, **k)
+        states.append(frozen_fields(W, S))
+        return r
+
+    def write_shell_update(*a, **k):
+        r = ou(*a, **k)
+        states.append(frozen_fields(W, S))
+        return r
+    S.write, S.write_shell_update = write, write_shell_update
+    return states
+
+
 def limit_iterations(S, K):
     iters = []
     orig = S.add_samples
@@ -183,3 +201,168 @@ def mirror(W, cfg):
         same_state(W, S, S3, 'C05:file-mirrors-state-after-step')
     finally:
         cleanup(W)
+
+
+# ---------------------------------------------------------------------------
+# C06: kill at any journal position
+# ---------------------------------------------------------------------------
+
+def frozen_fields(W, S):
+    return [(n, v) for n, v in fields(W, S)]
+
+
+def match(W, fa, fb):
+    """scalar truth: field lists equal (term identity / tolerance)"""
+    if [n for n, _ in fa] != [n for n, _ in fb]:
+        return False
+    for (n, x), (_, y) in zip(fa, fb):
+        if isinstance(x, (tuple, str, bool)) or x is None or \
+                isinstance(y, (tuple, str, bool)) or y is None:
+            good = (x == y)
+        elif W.symbolic:
+            good = ident(W, x, y)
+        else:
+            good = W.same(x, y)
+        if not good:
+            return False
+    return True
+
+
+def crash(W, cfg):
+    K = 1
+    W.h5_model = cfg.get('h5_model', 'api')
+    S, like = st.build(W, cfg)
+    path = ckpt_path(W)
+    try:
+        S.filepath = path
+        B0 = len(S.bounds)
+        had_file = B0 > 0
+        if had_file:
+            ok, _ = call(W, 'C06:write-no-raise',
+                         lambda: S.write(path, overwrite=True))
+            if not ok:
+                return
+        if cfg.get('no_new_bound'):
+            W.assume(S.n_update_iter + (K + 1) * S.n_batch < S.n_update)
+            W.assume(S.n_like_iter + (K + 1) * S.n_batch < S.n_like_new_bound)
+        old = frozen_fields(W, S) if had_file else None
+        args = setup_run_args(W, cfg, K)
+        install_counters(S, unroll=cfg.get('unroll', 2) * (K + 1))
+        if W.symbolic:
+            crash_symbolic(W, cfg, S, path, args, old, had_file, K)
+        else:
+            crash_concrete(W, cfg, S, path, args, old, had_file, K)
+    finally:
+        cleanup(W)
+
+
+def crash_symbolic(W, cfg, S, path, args, old, had_file, K):
+    fs = symh5.FS
+    snap = fs.snapshot()
+    j0 = len(fs.journal)
+    iters, orig = limit_iterations(S, K)
+    new = record_written_states(W, S)
+    ok, ret = call(W, 'C06:run-no-raise', lambda: S.run(**args))
+    S.add_samples = orig
+    if not ok:
+        return
+    journal = fs.journal[j0:]
+    sites = fs.sites[j0:]
+    N = len(journal)
+    if N == 0:
+        return
+    k = W.int('crash_at')
+    live = symh5.FS
+    for kk in range(N + 1):
+        where = 'kill after %d of %d file operations (%s)' % (
+            kk, N, 'before the first' if kk == 0 else
+            'last completed: %s inside %s' % (journal[kk - 1][0],
+                                              sites[kk - 1]))
+        if 0 < kk < N:
+            where += '; next: %s inside %s' % (journal[kk][0], sites[kk])
+        # which write call is the kill strictly inside of
+        window = 'none'
+        if 0 < kk < N and sites[kk - 1] == sites[kk] and \
+                journal[kk - 1][0] != 'close_w':
+            window = sites[kk]
+        where += ' window=' + window
+        symh5.use(fs.crashed(snap, journal, kk, model=W.h5_model))
+        try:
+            with W.scoped(k == kk):
+                check_after_crash(W, S, path, old, new, had_file, where)
+        finally:
+            symh5.use(live)
+
+
+def check_after_crash(W, S, path, old, new, had_file, where):
+    exists = symh5.Path(path).exists() if W.symbolic else os.path.exists(path)
+    if had_file:
+        W.require(exists, 'C06:checkpoint-exists', where)
+    if not exists:
+        return
+    try:
+        S2 = resume(W, S, path)
+    except (world.ReplayDone, world.ReplayMismatch):
+        raise
+    except Exception as e:
+        W.fail('C06:checkpoint-loadable', '%s: resume raises %s: %s' % (
+            where, type(e).__name__, str(e)[:80]))
+        return
+    try:
+        got = frozen_fields(W, S2)
+    except (IndexError, ValueError, TypeError, KeyError, AttributeError):
+        got = None          # restored object is not even well-formed
+    good = got is not None and any(match(W, got, st_) for st_ in new)
+    good = good or (got is not None and old is not None and
+                    match(W, got, old))
+    W.require(good, 'C06:old-or-new-state', where)
+
+
+def crash_concrete(W, cfg, S, path, args, old, had_file, K):
+    """real h5py: a forked child performs the step and is killed
+    (os._exit) at operation k; the parent repeats the step completely to
+    obtain the new state, then resumes from the file the child left."""
+    from vlib import realh5
+    kk = W.int('crash_at')
+    keep = path + '.old_copy'
+    if had_file:
+        shutil.copy(path, keep)
+    import sys
+    sys.stdout.flush()
+    pid = os.fork()
+    if pid == 0:
+        try:
+            realh5.reset(kill_at=kk,
+                         eager=getattr(W, 'h5_model', 'api') == 'api')
+            iters, orig = limit_iterations(S, K)
+            S.run(**args)
+        except BaseException:
+            os._exit(78)
+        os._exit(0)
+    _, status = os.waitpid(pid, 0)
+    code = os.waitstatus_to_exitcode(status)
+    if code == 78:
+        raise world.ReplayMismatch('child raised during the step')
+    crashed = path + '.crashed'
+    left = os.path.exists(path)
+    if left:
+        os.replace(path, crashed)
+    tmp_left = os.path.exists(path + '.tmp')
+    if tmp_left:
+        os.remove(path + '.tmp')
+    if had_file:
+        shutil.copy(keep, path)
+    realh5.reset(kill_at=None)
+    iters, orig = limit_iterations(S, K)
+    new = record_written_states(W, S)
+    ok, ret = call(W, 'C06:run-no-raise', lambda: S.run(**args))
+    S.add_samples = orig
+    if not ok:
+        return
+    if os.path.exists(path):
+        os.remove(path)
+    if left:
+        os.replace(crashed, path)
+    where = 'kill after %d file operations (real h5py, child exit %d)' % (
+        kk, code)
+    check_after_crash(W, S, path, old, new, had_file, where)
